@@ -12,13 +12,12 @@ Lemma in_bad_iff : forall s q, in_bad s q = true <-> undriven s q \/ stray_sourc
 Proof.
   intros s q. unfold in_bad, undriven, stray_source.
   destruct (wsource s (pwire s q)) as [sp|]; [|split; auto].
-  rewrite negb_true_iff, orb_false_iff. split.
-  - intros [A B]. right. exists sp. repeat split; auto.
-    + intros HI. apply memb_In in HI. congruence.
-    + intros HI. apply memb_In in HI. congruence.
-  - intros [A|[sp' [E [A B]]]]; [discriminate|]. inversion E; subst sp'. split.
+  rewrite negb_true_iff, !orb_false_iff. split.
+  - intros [[A B] C]. right. exists sp. repeat split; auto; intros HI; apply memb_In in HI; congruence.
+  - intros [A|[sp' [E [A [B C]]]]]; [discriminate|]. inversion E; subst sp'. repeat split.
     + destruct (memb sp (oin s (pparent s sp))) eqn:M; auto. apply memb_In in M. tauto.
     + destruct (memb sp (oout s (pparent s sp))) eqn:M; auto. apply memb_In in M. tauto.
+    + destruct (memb sp (oinout s (pparent s sp))) eqn:M; auto. apply memb_In in M. tauto.
 Qed.
 Lemma out_bad_iff : forall s q, out_bad s q = true <-> undriven s q.
 Proof.
@@ -98,26 +97,25 @@ Proof.
   intros s Hinv p n c Hp Hin. destruct (i_child s Hinv) as [_ [C2 _]]. destruct (C2 _ _ _ Hp Hin) as [? [? _]]. auto.
 Qed.
 
-(* in a constructed netlist none of whose wires is driven by an inout port, the checkPort clause never fires *)
+(* in a constructed netlist the source of a wire is always listed in outPorts or inOutPorts of its block:
+   the checkPort clause never fires *)
 Lemma no_stray : forall s o q,
-  Inv s -> (forall w sp, w < nwire s -> wsource s w = Some sp -> pkind s sp = POut) ->
-  o < nobj s -> In q (oin s o) -> ~ stray_source s q.
+  Inv s -> o < nobj s -> In q (oin s o) -> ~ stray_source s q.
 Proof.
-  intros s o q Hinv Hout Ho Hin [sp [Hs [N1 N2]]].
-  destruct (i_ports s Hinv) as [P1 [P2 [P3 _]]].
+  intros s o q Hinv Ho Hin [sp [Hs [N1 [N2 N3]]]].
+  destruct (i_ports s Hinv) as [P1 [P2 [P3 P4]]].
   apply P2 in Hin; auto. destruct Hin as [Hq _]. destruct (P1 q Hq) as [_ Hw].
-  pose proof (Hout _ _ Hw Hs) as Hk.
-  apply (i_src s Hinv) in Hs; auto. destruct Hs as [Hsp _].
+  apply (i_src s Hinv) in Hs; auto. destruct Hs as [Hsp [_ [_ Hd]]].
   destruct (P1 sp Hsp) as [Hpo _].
-  apply N2. apply P3; auto.
+  destruct (pkind s sp) eqn:K; cbn in Hd; [discriminate | apply N2; apply P3; auto | apply N3; apply P4; auto].
 Qed.
 
 Lemma integrity_clean : forall s h,
-  Inv s -> (forall w sp, w < nwire s -> wsource s w = Some sp -> pkind s sp = POut) -> h < nobj s ->
+  Inv s -> h < nobj s ->
   (checkIntegrity s h = IRaise <-> exists q, visited s h q /\ undriven s q) /\
   (checkIntegrity s h = IOk <-> forall q, visited s h q -> ~ undriven s q).
 Proof.
-  intros s h Hinv Hout Hh.
+  intros s h Hinv Hh.
   pose proof (inv_tree_ok s Hinv) as T.
   destruct (integrity_iff s h T Hh) as [NF IFF].
   assert (R : checkIntegrity s h = IRaise <-> exists q, visited s h q /\ undriven s q).
@@ -133,15 +131,18 @@ Proof.
     exfalso. destruct R as [R _]. destruct (R eq_refl) as [q [V U]]. eapply H; eauto.
 Qed.
 
-(* refutation of the unguarded clause: a wire driven by an InOutPort of a primitive block has a source, yet an
-   in-port reading it makes checkIntegrity raise ('.. not port of parent ..') *)
+(* the former counter-example: a wire driven by an InOutPort of a primitive block and read by an in-port is accepted *)
 Definition ops_inout : list op :=
   [NewLogic None 0%Z false; NewWire 0 0%Z 1%Z; NewLogic (Some 0) 1%Z true; NewLogic (Some 0) 2%Z true;
    AddInOut 1 0%Z 0; AddIn 2 0%Z 0].
-Lemma integrity_inout_refuted :
-  exists ops h, h < nobj (run ops) /\ checkIntegrity (run ops) h = IRaise /\
-                forall w, w < nwire (run ops) -> wsource (run ops) w <> None.
-Proof.
-  exists ops_inout, 0. split; [vm_compute; lia|]. split; [vm_compute; reflexivity|].
-  intros w Hw. assert (E : w = 0) by (vm_compute in Hw; lia). subst w. vm_compute. discriminate.
-Qed.
+Lemma inout_driver_accepted : checkIntegrity (run ops_inout) 0 = IOk.
+Proof. vm_compute. reflexivity. Qed.
+
+(* what the check does NOT look at: an InOutPort of a structural block on an undriven wire is accepted
+   (inOutPorts are not visited; in the library such ports are the external pins of platform shells) *)
+Definition ops_inout_unvisited : list op :=
+  [NewLogic None 0%Z false; NewWire 0 0%Z 1%Z; NewLogic (Some 0) 1%Z false; AddInOut 1 0%Z 0].
+Lemma inout_port_not_visited :
+  checkIntegrity (run ops_inout_unvisited) 0 = IOk /\ wsource (run ops_inout_unvisited) 0 = None /\
+  oinout (run ops_inout_unvisited) 1 = [0] /\ pwire (run ops_inout_unvisited) 0 = 0.
+Proof. vm_compute. repeat split; reflexivity. Qed.
